@@ -38,6 +38,19 @@ inductive EnumLookup where
   | byName (ops : List StrOp)      -- `self.type[ops(s)]`      (KeyError ⇒ next attempt)
   deriving DecidableEq, Repr
 
+/-- one conjunct of the name test of the `config` decorator (`if <t₁> and <t₂> …:` decides which attributes of the
+decorated class become `ConfigValue` descriptors) -/
+inductive NameTest where
+  | isUpper                          -- `n.isupper()`
+  | notStartsWith (p : Text)         -- `not n.startswith("<p>")`
+  deriving DecidableEq, Repr
+
+/-- what the decorator carries over from an attribute that already is a `ConfigValue(...)` (besides its default) -/
+inductive CVField where
+  | envVar                           -- `env_var=v._env_var`
+  | parser                           -- `parser=v.parser`
+  deriving DecidableEq, Repr
+
 /-- python exception classes the model distinguishes -/
 inductive Err where
   | valueError | keyError | typeError | attributeError | other
